@@ -72,7 +72,7 @@ def gen(rng, tier):
         # exactly well-formed dyadic operands with uncertainties below machine epsilon but not zero
         for _ in range(60 if tier == "quick" else 3000):
             def tiny_u_bop():
-                e = (rng.choice([53, 54, 55, 60]) if ty == "f64" else rng.choice([24, 25, 26, 30]))
+                e = (rng.choice([53, 54, 55, 60, 1030, 1060]) if ty == "f64" else rng.choice([24, 25, 26, 30, 130, 140]))
                 uu = 2.0 ** -e
                 kk = G.composition(rng, 8, 2, zero_bias=0)
                 bb = [v / 8.0 for v in kk]
@@ -126,7 +126,7 @@ def gen(rng, tier):
             k += 1
             out.append(Case("bdeduce", ty, "bi", "-", [], x + c0[0] + [c0[1]] + c1[0] + [c1[1]] + [ay], tag=tag))
         # conditionals tied in the component bounding K (K = 0; the threshold comparison is decided by rounding)
-        for i in range(400 if tier == "quick" else 40000):
+        for i in range(800 if tier == "quick" else 60000):
             nums = c14.tied_conditionals(rng, ty, i)
             if nums is not None:
                 out.append(Case("bdeduce", ty, "bi", "-", [], nums, tag="tied_conditionals"))
